@@ -163,6 +163,20 @@ PROPS["C09"] = {
 }
 
 
+PROPS["C06"] = {
+    "module": "PropC06",
+    "theorems": ["C06_hints_first", "C06_first_qualifying_hint_wins", "C06_no_qualifying_hint_no_early_exit",
+                 "C06_early_exit_only_when_qualifying", "C06_only_hints_qualify", "C06_hints_not_similarity_keys"],
+    "runs": [detect_run("C06", 240, 2500, maxq=4000, maxt=20000)],
+    "search": {"level": "detect", "args": ["--focus", "C06", "--n", "800", "--max-len", "5000"]},
+    "rule": DETECT_RULE + "; focus C06: declaration x BOM x body generator (any label, three keywords, quoting, position around byte "
+            "4096, fitting or contradicting the body); for every case the expected result is rebuilt from stand-alone probes of all 41 "
+            "encodings with the hint rule and compared with the real result",
+    "assumptions": ["the `declared` oracle is utils::any_specified_encoding (regex engine not modelled); it is served by the real function in the correspondence"],
+    "trusted": [],
+}
+
+
 def _tok(line):
     return line.split(" ")
 
